@@ -422,30 +422,43 @@ Definition mark_child_deleted (n : nodeid) (name : string) : M unit :=
   | None => ret tt
   end.
 
-(** notifyNameChange: Renamed on every ref registered in the subtree *)
-Fixpoint notify_name_change (fuel : nat) (n : nodeid) : M unit :=
+(** notifyNameChange: Renamed on every fidRef registered in the subtree that is still alive
+    (TryIncRef); the references taken are returned and dropped by the caller after the whole
+    notification *)
+Fixpoint notify_name_change (fuel : nat) (n : nodeid) : M (list refid) :=
   match fuel with
   | O => panic
   | S k =>
       p <- the_node n ;;
-      (fix refs (l : list (refid * string)) : M unit :=
-         match l with
-         | [] => ret tt
-         | (r, nm) :: rest =>
-             fr <- the_ref r ;;
-             match fr_parent fr with
-             | None => panic                      (* nil dereference of ref.parent *)
-             | Some pr =>
-                 pfr <- the_ref pr ;;
-                 backend (mkCall MRenamed (fr_file fr) [nm] (Some (fr_file pfr)) [] []) ;;
-                 refs rest
-             end
-         end) (pn_refs p) ;;
-      (fix each (l : list (string * nodeid)) : M unit :=
-         match l with
-         | [] => ret tt
-         | (_, c) :: rest => notify_name_change k c ;; each rest
-         end) (pn_kids p)
+      h1 <- (fix refs (l : list (refid * string)) : M (list refid) :=
+               match l with
+               | [] => ret []
+               | (r, nm) :: rest =>
+                   fr <- the_ref r ;;
+                   if (0 <? fr_refs fr)%Z then
+                     incref r ;;
+                     match fr_parent fr with
+                     | None => panic                      (* nil dereference of ref.parent *)
+                     | Some pr =>
+                         pfr <- the_ref pr ;;
+                         backend (mkCall MRenamed (fr_file fr) [nm] (Some (fr_file pfr)) [] []) ;;
+                         hs <- refs rest ;;
+                         ret (r :: hs)
+                     end
+                   else refs rest
+               end) (pn_refs p) ;;
+      h2 <- (fix each (l : list (string * nodeid)) : M (list refid) :=
+               match l with
+               | [] => ret []
+               | (_, c) :: rest => a <- notify_name_change k c ;; b <- each rest ;; ret (a ++ b)%list
+               end) (pn_kids p) ;;
+      ret (h1 ++ h2)%list
+  end.
+
+Fixpoint dec_all (l : list refid) : M unit :=
+  match l with
+  | [] => ret tt
+  | r :: t => dec_ref_ r ;; dec_all t
   end.
 
 (** pathNode.addPathNodeFor (panics when the name already has a node) *)
@@ -477,6 +490,7 @@ Definition rename_child_to (f : refid) (old : string) (target : refid) (new : st
   | Some c =>
       add_path_node_for (fr_node tfr) new c ;;
       fuel <- gets node_fuel ;;
-      notify_name_change fuel c
+      held <- notify_name_change fuel c ;;
+      dec_all held
   | None => ret tt
   end.
